@@ -87,8 +87,11 @@ def Framer.finish (f : Framer) (buf : Bytes) : Except Err Bytes :=
       match c.enc (buf.drop f.headSize) with
       | .error _ => .error .codec
       | .ok z =>
-        let buf' := buf.take f.headSize ++ z
-        .ok (f.setLength buf' (buf'.length - f.headSize))
+        -- after the repair of KF-C18-2: the COMPRESSED frame is compared with the limit, too
+        if f.headSize + z.length > maxFrameSize then .error .tooBig
+        else
+          let buf' := buf.take f.headSize ++ z
+          .ok (f.setLength buf' (buf'.length - f.headSize))
   else .ok (f.setLength buf (buf.length - f.headSize))
 
 /-- a frame builder reduced to what matters here: header flags, opcode, stream, body bytes -/
@@ -188,7 +191,7 @@ def finishLen (hs bufLen : Nat) (flag : Bool) (enc : Option (Except Unit Nat)) :
     match enc with
     | none => .error .panic
     | some (.error _) => .error .codec
-    | some (.ok zl) => .ok (hs + zl)
+    | some (.ok zl) => if hs + zl > maxFrameSize then .error .tooBig else .ok (hs + zl)
   else .ok bufLen
 
 /-- length of the body `readFrame` leaves in the framer; `dec` = what Decode answered, as a length -/
@@ -243,10 +246,14 @@ def lz4Encode (b : BlockCodec) (data : Bytes) : Except Unit Bytes :=
 def lz4Prefix (data : Bytes) : Nat :=
   readBE32 (data.getD 0 0) (data.getD 1 0) (data.getD 2 0) (data.getD 3 0)
 
+/-- lz4/lz4.go Decode AFTER the repair of KF-C18-1: the number of bytes the block decoder produced is
+    compared with the 4-byte prefix -/
 def lz4Decode (b : BlockCodec) (data : Bytes) : Except Unit Bytes :=
   if data.length < 4 then .error ()
   else if lz4Prefix data = 0 then .ok []
-  else b.decB (data.drop 4) (lz4Prefix data)
+  else match b.decB (data.drop 4) (lz4Prefix data) with
+    | .error e => .error e
+    | .ok out => if out.length = lz4Prefix data then .ok out else .error ()
 
 def lz4 (b : BlockCodec) : Codec := { enc := lz4Encode b, dec := lz4Decode b }
 
